@@ -344,6 +344,50 @@ def ob_global_arrays(env):
                 env.claim_eq("global_upper_left_corners=region_corner[i,j+1]", g.upper_left_corners[X, Y], a.corners[i, j + 1])
 
 
+def ob_getrefined(env):
+    """PsiContour.getRefined: every point of the contour is replaced, at the same position, by refinePoint(that point, local tangent) with the
+    contour's width/atol - the tangent is the difference of the neighbouring points (one-sided at the ends); with skip_endpoints the designated
+    start/end points are kept as they are; startInd/endInd are carried over"""
+    n = 5
+    pts = [Point2D(env.real("R%d" % k), env.real("Z%d" % k)) for k in range(n)]
+    start = int(env.int("startInd", lo=0, hi=1))
+    end = int(env.int("endInd", lo=n - 2, hi=n - 1))
+    skip = bool(env.choose(2))
+    calls = []
+    c = eqm.PsiContour.__new__(eqm.PsiContour)
+    c.points = list(pts)
+    c._startInd, c._endInd, c._extend_lower, c._extend_upper = start, end, 0, 0
+    c._fine_contour = c._distance = None
+    c.psival = env.real("psival")
+    c.user_options = types.SimpleNamespace(refine_width=env.real("refine_width", pos=True), refine_atol=env.real("refine_atol", pos=True))
+
+    def refine_point(p, tangent, width=None, atol=None, **kw):
+        calls.append((p, tangent, width, atol, kw))
+        return ("refined", len(calls) - 1)
+
+    c.refinePoint = refine_point
+    made = {}
+
+    def new_from_self(points=None, psival=None):
+        made["points"] = points
+        made["psival"] = psival
+        return "NEW"
+
+    c.newContourFromSelf = new_from_self
+    out = c.getRefined(skip_endpoints=skip, psi="PSI")
+    env.witness("refined")
+    env.tag("skip_endpoints=%s" % skip)
+    env.claim("result_built_from_the_new_points_of_this_contour", out == "NEW" and made["psival"] is None and len(made["points"]) == n)
+    env.claim("every_point_refined_once_in_order", len(calls) == n and all(calls[k][0] is pts[k] for k in range(n)))
+    for k in range(n):
+        a, b = (pts[k + 1] if k < n - 1 else pts[k]), (pts[k - 1] if k > 0 else pts[k])
+        env.claim_eq("tangent_is_the_difference_of_the_neighbours(R)", calls[k][1].R, a.R - b.R)
+        env.claim_eq("tangent_is_the_difference_of_the_neighbours(Z)", calls[k][1].Z, a.Z - b.Z)
+        env.claim("contour's_width_atol_and_psi_passed_on", calls[k][2] is c.user_options.refine_width and calls[k][3] is c.user_options.refine_atol and calls[k][4] == {"psi": "PSI"})
+        keep = skip and k in (start, end)
+        env.claim("new_point_k_is_the_refined_point_k(or_the_kept_end_point)", made["points"][k] is pts[k] if keep else made["points"][k] == ("refined", k))
+
+
 def ob_file_variables(env):
     """BoutMesh.writeArray / writeCorners: the variable written under each documented name is the matching location of the global array,
     with the extra last row/column of the face and corner arrays dropped"""
@@ -419,6 +463,10 @@ def _mk_rzboundary(has_upper):
 OBLIGATIONS.append(Ob("global_arrays_from_regions", ob_global_arrays, tier="quick", family="addFromRegions", encodes=["hypnotoad.core.mesh:BoutMesh.geometry"],
                       desc="global centre/xlow/ylow/corner arrays (and the lower-right, upper-right, upper-left corner variants) hold each region's value at the matching local index",
                       bounds="2x2 block layout of regions with sizes 1x2, 2x2, 1x1, 2x1; all values symbolic"))
+OBLIGATIONS.append(Ob("getRefined_point_by_point", ob_getrefined, tier="quick", family="refinement", encodes=["hypnotoad.core.equilibrium:PsiContour.getRefined"],
+                      desc="each point replaced in place by refinePoint(point, neighbour-difference tangent, contour's width/atol); skip_endpoints keeps the designated end points",
+                      stubs=["refinePoint -> recorder (its own contract: newton_acceptance_contract / refinePoint_dispatch)", "newContourFromSelf -> recorder"],
+                      bounds="5 points, startInd in 0..1, endInd in 3..4, skip_endpoints both"))
 OBLIGATIONS.append(Ob("file_variables_from_global_arrays", ob_file_variables, tier="quick", family="writeArray",
                       encodes=["hypnotoad.core.mesh:BoutMesh.writeArray", "hypnotoad.core.mesh:BoutMesh.writeCorners"],
                       desc="Rxy, Rxy_xlow, Rxy_ylow, Rxy_corners and the three other corner variables are the matching locations, each nx by ny", stubs=["DataFile.write -> recorder"],
